@@ -1,6 +1,7 @@
 #!/bin/bash
 # For every saved seeded change: apply it to /repo, run the quick check of the property it breaks, undo it.
 # Prints one line per change; exits 1 if a change is not reported by its own property's check.
+export UHLINT_EVIDENCE_DIR=$(mktemp -d /tmp/uhlint-ev.XXXXXX)  # never overwrite /verif/evidence from a modified tree
 set -u
 cd /repo
 git diff --quiet || { echo "/repo working tree not clean"; exit 2; }
